@@ -436,7 +436,9 @@ class CaseRun:
                             "k": len(ep["emits"]) - 1, "ty": h.pkt_type.value, "seq": int(h.seq), "ack": int(h.ack),
                             "bits": h.ack_bits, "count": h.count, "dlen": len(d), "sealed": sealed, "nonce": d[:12].hex(),
                             "key": key.hex() if key else None, "mtu": C.Packet.MTU, "aad_ok": aad_ok,
-                            "msgs": [(int(m.seq), m.type.value, digest(m.payload)) for m in pkt.msgs]}})
+                            "msgs": [(int(m.seq), m.type.value, digest(m.payload)) for m in pkt.msgs],
+                            "frags": {int(m.seq): struct.unpack(">HHH", m.payload[:6]) for m in pkt.msgs
+                                      if m.type.value == 7 and len(m.payload) >= 6}}})
             except Exception as e:
                 out.append("err:" + type(e).__name__)
                 if log is not None:
@@ -1151,4 +1153,54 @@ def sealing_monitor(case, log, ctx):
                         "nonce = bytes 0..11 and AAD = bytes 0..19: part of the header is not covered by the tag" % (p["k"], rec["e"], p["ty"]),
                         {"case": case, "at": (builds[b] - 1) if b < len(builds) else len(case) - 2})
             return True
+    return False
+
+def reassembly_monitor(case, log, ctx):
+    """reference reading of FragmentReceiver on what each endpoint accepted: a fragment goes into the context of its id (created on the
+    first fragment, keeping that arrival time), a complete context is delivered and removed, and only THEN contexts older than
+    1 + 0.5*count s are purged - so a late fragment still completes its own context.  The real endpoint must deliver at least as many
+    reassembled messages as this reading does."""
+    emitted = {}       # (endpoint, emission index) -> {mseq: (frag id, index, count)}
+    for rec in log:
+        if rec["op"] == "build" and rec.get("pkt"):
+            emitted[(rec["e"], rec["pkt"]["k"])] = rec["pkt"].get("frags", {})
+    big = {r["digest"] for r in log if r["op"] == "send" and r.get("frag")}
+    ctxs, seen, ref, got = {}, {}, {}, {}
+    pos = [i for i, l in enumerate(case) if l.startswith("recv ")]
+    n = -1
+    for rec in log:
+        if rec["op"] != "recv":
+            continue
+        n += 1
+        if "hdrerr" in rec:
+            continue
+        e = rec["e"]
+        for ev in rec.get("ev", []):
+            q = ev.split(":")
+            if q[0] == "dlv" and (q[2] + ":" + q[3]) in big:
+                got[e] = got.get(e, 0) + 1
+        if rec.get("ret") != "T" or not rec["spec"].startswith("@") or rec.get("muts") or rec.get("rekey"):
+            continue
+        src, k = rec["spec"][1:].split(":")
+        for mseq, (fid, idx, cnt) in sorted(emitted.get((src, int(k)), {}).items()):
+            if mseq in seen.setdefault(e, set()):
+                continue
+            seen[e].add(mseq)
+            c = ctxs.setdefault(e, {})
+            if fid not in c:
+                c[fid] = {"t": rec["t"], "cnt": cnt, "have": set()}
+            if 1 <= idx <= c[fid]["cnt"]:
+                c[fid]["have"].add(idx)
+            if len(c[fid]["have"]) == c[fid]["cnt"]:
+                ref[e] = ref.get(e, 0) + 1
+                del c[fid]
+            for f2 in [f for f, x in c.items() if rec["t"] - x["t"] > 1024 + 512 * x["cnt"]]:
+                del c[f2]
+        if ref.get(e, 0) > got.get(e, 0):
+            ctx.failure("complete-message-not-reassembled",
+                        "endpoint %s has accepted every fragment of %d fragmented message(s) within the lifetime of their reassembly contexts "
+                        "but delivered only %d" % (e, ref[e], got.get(e, 0)),
+                        {"case": case, "at": (pos[n] - 1) if n < len(pos) else len(case) - 2})
+            return True
+    ctx.count("reassembly:reference-deliveries", sum(ref.values()))
     return False
